@@ -11,7 +11,8 @@ from sim.util import REPLAY_DIR, canon, source_hashes
 
 class C20Plan(RunPlan):
     prop = "C20"
-    expected_reach = ('context_switches', 'preempted_inside___new__', 'lock_blocked_yields', 'C20.table-count.checked')
+    expected_reach = ('context_switches', 'preempted_inside___new__', 'lock_blocked_yields', 'C20.table-count.checked',
+                      'instruction_level_yield_points')
     engine = "T"
     quick_runs = 3000
     thorough_runs = 300000
@@ -212,15 +213,18 @@ class C19Plan(RunPlan):
         ev["shipped_declarations_checked"] = shipped_checked
         ev["shipped_declaration_boots"] = len(decl_boots)
         # ---- (1) exhaustive F2 enumeration
+        # thorough tier: crash points at bytecode-instruction granularity (roughly 8x as many)
+        gran = "opcode" if tier == "thorough" else "line"
         snap_tasks = []
-        for b in enum_boots:
+        for b in enum_boots[:3] if tier == "thorough" else enum_boots:
             t = driver.Template(b)
             try:
                 snap = t.request({"kind": "bootinfo"})["snapshot"]
             finally:
                 t.close()
             for c in c19_corpus.corpus(snap):
-                ops = c["setup"] + [dict(c["target"], inject={"ordinal": 0, "exc": "KeyboardInterrupt"})]
+                ops = c["setup"] + [dict(c["target"], inject={"ordinal": 0, "exc": "KeyboardInterrupt",
+                                                              "granularity": gran})]
                 snap_tasks.append((b, c, {"engine": "A", "prop": "C19", "ops": ops,
                                           "opts": {"want_log": True}, "timeout": 120}))
         counts = pool.run([(b, r) for b, c, r in snap_tasks])
@@ -235,7 +239,7 @@ class C19Plan(RunPlan):
             calls += 1
             for k in range(1, n + 1):
                 exc = "KeyboardInterrupt" if k % 2 else "MemoryError"
-                ops = c["setup"] + [dict(c["target"], inject={"ordinal": k, "exc": exc})]
+                ops = c["setup"] + [dict(c["target"], inject={"ordinal": k, "exc": exc, "granularity": gran})]
                 tasks.append((b, {"engine": "A", "prop": "C19", "ops": ops, "timeout": 120}))
                 meta.append((c["name"], k, n))
         results = pool.run(tasks)
@@ -256,7 +260,8 @@ class C19Plan(RunPlan):
         if fired != len(tasks):
             raise driver.HarnessError("F2 enumeration: %d of %d injections fired" % (fired, len(tasks)))
         ev["f2_enumeration"] = {
-            "exhaustive": True, "corpus_calls": calls, "boots": len(enum_boots),
+            "exhaustive": True, "granularity": gran, "corpus_calls": calls,
+            "boots": len(enum_boots[:3] if tier == "thorough" else enum_boots),
             "crash_points_enumerated": len(tasks), "injections_fired": fired,
             "crash_points_leaving_registries_unchanged": atomic,
             "signatures": sigs,
@@ -354,6 +359,22 @@ def baseline_ops(ops, qi, include_algebra=False):
     return out + [qq]
 
 
+def upstream_queries(ops, qi):
+    """ids of earlier queries whose results feed (through references) into ops[qi]."""
+    by_id = {o["id"]: o for o in ops[:qi]}
+    seen, out = set(), []
+    stack = list(refs_of(ops[qi]))
+    while stack:
+        i = stack.pop()
+        if i in seen or i not in by_id:
+            continue
+        seen.add(i)
+        if by_id[i]["op"] in QUERY_KINDS:
+            out.append(i)
+        stack.extend(refs_of(by_id[i]))
+    return sorted(out)
+
+
 def same_outcome(a, b, tol):
     if a is None or b is None:
         return a == b
@@ -425,6 +446,15 @@ class C08Plan(RunPlan):
         if h is None or b is None:
             c["C08.baseline.skipped"] = c.get("C08.baseline.skipped", 0) + 1
             return None
+        # a query fed by the result of an earlier query is compared only when that earlier
+        # query gave the same result in both worlds; otherwise the two worlds asked different
+        # questions, and it is the earlier query that is compared with its own baseline
+        differs = [u for u in upstream_queries(ops, qi)
+                   if not same_outcome((res.get("queries") or {}).get(str(u)),
+                                       (base_res.get("queries") or {}).get(str(u)), 1e-9)]
+        if differs:
+            c["C08.baseline.input-differs"] = c.get("C08.baseline.input-differs", 0) + 1
+            return {"upstream": differs}
         c["C08.baseline.checked"] = c.get("C08.baseline.checked", 0) + 1
         if same_outcome(h, b, 1e-9):
             return None
@@ -453,30 +483,39 @@ class C08Plan(RunPlan):
         return "other"
 
     def post_process(self, tasks, results, pool):
-        btasks, where = [], []
+        todo = []
+        done = set()
         for i, ((boot, req), res) in enumerate(zip(tasks, results)):
             if not res or "harness_error" in res or not res.get("ops"):
                 continue
-            ops = res["ops"]
-            for qi in self.select_queries(ops, req.get("seed")):
-                btasks.append((boot, {"engine": "B", "prop": self.prop, "ops": baseline_ops(ops, qi),
-                                      "timeout": self.run_timeout}))
-                where.append((i, qi))
-        bres = pool.run(btasks)
-        self.baseline_worlds = getattr(self, "baseline_worlds", 0) + len(btasks)
+            for qi in self.select_queries(res["ops"], req.get("seed")):
+                todo.append((i, qi))
         pending = []
-        for k, ((i, qi), br) in enumerate(zip(where, bres)):
-            if "harness_error" in br:
-                br = driver.one(*btasks[k])          # once more, in a fresh template
-                bres[k] = br
-            if "harness_error" in br:
-                results[i]["harness_error"] = "baseline world: " + str(br["harness_error"])
-                continue
-            if "harness_error" in results[i]:
-                continue
-            v = self.compare(results[i], results[i]["ops"], qi, br)
-            if v is not None:
-                pending.append((i, qi, v))
+        while todo:
+            todo = [w for w in todo if w not in done]
+            done.update(todo)
+            btasks = [(tasks[i][0], {"engine": "B", "prop": self.prop, "timeout": self.run_timeout,
+                                     "ops": baseline_ops(results[i]["ops"], qi)}) for i, qi in todo]
+            bres = pool.run(btasks) if btasks else []
+            self.baseline_worlds = getattr(self, "baseline_worlds", 0) + len(btasks)
+            more = []
+            for k, ((i, qi), br) in enumerate(zip(todo, bres)):
+                if "harness_error" in br:
+                    br = driver.one(*btasks[k])          # once more, in a fresh template
+                    bres[k] = br
+                if "harness_error" in br:
+                    results[i]["harness_error"] = "baseline world: " + str(br["harness_error"])
+                    continue
+                if "harness_error" in results[i]:
+                    continue
+                ops = results[i]["ops"]
+                v = self.compare(results[i], ops, qi, br)
+                if v is not None and "upstream" in v:
+                    pos = {o["id"]: n for n, o in enumerate(ops)}
+                    more += [(i, pos[u]) for u in v["upstream"] if "inject" not in ops[pos[u]]]
+                elif v is not None:
+                    pending.append((i, qi, v))
+            todo = more
         # diagnose mechanisms (one extra world per differing query)
         dtasks = []
         for i, qi, v in pending:
@@ -526,7 +565,7 @@ class C08Plan(RunPlan):
             if "harness_error" in br:
                 return br
             v = self.compare(res, ops, qi, br)
-            if v is not None:
+            if v is not None and "upstream" not in v:
                 cand = ops[:qi] + [{"op": "evict", "caches": None, "id": 10 ** 6}] + ops[qi:qi + 1]
                 dr = template.request({"engine": "B", "prop": self.prop, "ops": cand, "timeout": self.run_timeout})
                 ar = template.request({"engine": "B", "prop": self.prop, "timeout": self.run_timeout,
